@@ -512,6 +512,113 @@ func c03Second(t *testing.T, p *world.PKI, sc scen, mode string, seed uint64) ru
 	return o
 }
 
+// c03RogueACK: a DTLS 1.3 peer that completes the key exchange but never sends its final flight
+// (Certificate / CertificateVerify / Finished): instead it acknowledges the server's whole flight with an
+// ACK record sealed under its handshake keys (forged with the reference record layer from the client's
+// handshake secret). Whatever the client-authentication policy, a server that has not seen the client's
+// Finished must not report an established connection, and must not hand application data to such a peer.
+func c03RogueACK(t *testing.T, p *world.PKI, pol dtls.ClientAuthType, polName string, extra int, seed uint64) run.Outcome {
+	var o run.Outcome
+	world.Run(t, seed, func(w *world.World) {
+		ccfg := world.Cfg{MinV: 13, MaxV: 13}
+		scfg := world.Cfg{MinV: 13, MaxV: 13, SkipHelloVerify: true, ClientAuth: pol}
+		c, err := w.NewEndpoint(p, true, world.ClientAddr, world.ServerAddr, ccfg)
+		if err != nil {
+			o.Skip = true
+			return
+		}
+		s, err := w.NewEndpoint(p, false, world.ServerAddr, world.ClientAddr, scfg)
+		if err != nil {
+			o.Skip = true
+			return
+		}
+		pr := &world.Pair{W: w, C: c, S: s, FirstID: w.EmittedCount()}
+		c.StartHandshake()
+		w.Settle()
+		s.StartHandshake()
+		w.Settle()
+		// deliver the ClientHello flight and the server's flight; withhold every protected client datagram
+		for i := 0; i < 60; i++ {
+			w.Settle()
+			d := w.Head()
+			if d == nil {
+				break
+			}
+			w.Take(d)
+			if d.Src == world.ClientAddr {
+				if recs, _ := world.ParseDatagram(d.Data, 0); len(recs) > 0 && recs[0].Unified {
+					continue // the rogue never sends its final flight (nor the library client's ACKs)
+				}
+			}
+			w.Push(d.Src, d.Dst, d.Data)
+		}
+		w.Settle()
+		sec, ok := pr.GetSecrets()
+		if !ok || !sec.V13 || len(sec.HSClient) == 0 {
+			o.Skip = true
+			o.Class = "rogue-ack/no-handshake-secret"
+			pr.CloseAll()
+			return
+		}
+		// the record numbers of the server's protected flight (epoch 2)
+		n := 0
+		for _, d := range w.Emitted() {
+			if d.Src != world.ServerAddr {
+				continue
+			}
+			recs, _ := world.ParseDatagram(d.Data, 0)
+			for _, r := range recs {
+				if r.Unified && r.Epoch&3 == 2 {
+					n++
+				}
+			}
+		}
+		var body []byte
+		cnt := n + extra
+		body = append(body, byte((cnt*16)>>8), byte(cnt*16))
+		for i := 0; i < cnt; i++ {
+			var rn [16]byte
+			rn[7] = 2 // epoch 2
+			rn[14], rn[15] = byte(i>>8), byte(i)
+			body = append(body, rn[:]...)
+		}
+		keys := refimpl.TrafficKeys13(sec.Suite, sec.HSClient)
+		for seq := uint64(0); seq < 2; seq++ {
+			rec, err := refimpl.Seal13(sec.Suite, keys, refimpl.Record13{Type: 26, Epoch: 2, Seq: seq, Seq16: true, WithLength: true, Payload: body})
+			if err != nil {
+				o.Skip = true
+				pr.CloseAll()
+				return
+			}
+			w.Push(world.ClientAddr, world.ServerAddr, rec)
+			w.Settle()
+		}
+		w.Sleep(500 * time.Millisecond)
+		established := s.HS.OK() || s.Snapshot().Established
+		leaked := ""
+		if established {
+			wr := w.Go("server.Write", func(*world.Op) error { _, e := s.Conn.Write([]byte("server-secret-data")); return e })
+			w.Settle()
+			if d, e := wr.Result(); d && e == nil {
+				leaked = "; server.Write succeeded towards the unauthenticated peer"
+			}
+		}
+		o.NonTrivial = n > 0
+		res := "refused"
+		if established {
+			res = "established"
+		}
+		o.Class = fmt.Sprintf("rogue-ack/%s/%s", polName, res)
+		if established {
+			o.Key = "dtls13-server-established-by-ack-without-client-finished"
+			o.Violation = fmt.Sprintf("scenario=13/rogue-client/policy=%s/ack-instead-of-final-flight (ACK covering %d record numbers of epoch 2, %d of them real): the server reported an established connection although the client's Finished (and certificate) never arrived%s", polName, cnt, n, leaked)
+		}
+		o.Sample = map[string]any{"scenario": "13/rogue-client/policy=" + polName + "/ack-instead-of-final-flight", "acked_records": cnt, "server": res}
+		pr.CloseAll()
+	})
+	return o
+}
+
 func c03Key(sc scen) string {
 	if sc.v13 && !sc.rogueClient && strings.HasPrefix(sc.devKind, "no-certificate") {
 		return "F5-dtls13-client-accepts-server-flight-without:" + sc.devKind
@@ -549,6 +656,15 @@ func TestC03(t *testing.T) {
 		for _, mode := range []string{"refused", "withheld"} {
 			sc, mode := sc, mode
 			cases = append(cases, run.Case{ID: sc.name + "/second-attempt-" + mode, Run: func(t *testing.T) run.Outcome { return c03Second(t, p, sc, mode, env.Seed+1) }})
+		}
+	}
+	for _, pc := range []struct {
+		p dtls.ClientAuthType
+		n string
+	}{{dtls.NoClientCert, "NoClientCert"}, {dtls.RequestClientCert, "Request"}, {dtls.RequireAnyClientCert, "RequireAny"}, {dtls.VerifyClientCertIfGiven, "VerifyIfGiven"}, {dtls.RequireAndVerifyClientCert, "RequireAndVerify"}} {
+		for _, extra := range []int{0, 4} {
+			pc, extra := pc, extra
+			cases = append(cases, run.Case{ID: fmt.Sprintf("13/rogue-client/policy=%s/ack-instead-of-final-flight/extra%d", pc.n, extra), Run: func(t *testing.T) run.Outcome { return c03RogueACK(t, p, pc.p, pc.n, extra, env.Seed+1) }})
 		}
 	}
 	run.Main(t, "C03", cases, map[string]any{"scenarios": len(scs), "masks": len(masks), "max_faults": k, "N_per_direction": 5})
